@@ -1,5 +1,6 @@
 import PtVerif.Proofs.ActivationSample
 import PtVerif.Proofs.ActivationData
+import PtVerif.Proofs.ActivationUnique
 /-!
 # C14 — activation equals the solution of the documented capture/decay chains
 
@@ -17,7 +18,8 @@ Clauses of the property and where they are:
 * "each product's activity is the decay rate given by the exact solution of its reaction chain":
   `act_solves` + `act_is_chain_solution`, `b_solves` + `b_is_chain_solution`,
   `twoN_solves` + `twoN_is_chain_solution` (closed forms solve the ODE systems with the stated
-  initial values; `activityRow` returns `λ·N(T)` of that solution)
+  initial values; `activityRow` returns `λ·N(T)` of that solution); `act_solution_unique`,
+  `b_solution_unique`, `twoN_solution_unique` (they are *the* solutions)
 * "never negative, never fail to compute for physical inputs": `nonneg_act`, `nonneg_b`,
   `nonneg_2n`, and over the regenerated table `table_act_never_fails`, `table_b_never_fails`;
   for `'2n'` rows only off the set where two of the three rates coincide
@@ -41,8 +43,7 @@ Clauses of the property and where they are:
 the real code is confronted, on every run, with the chain ODE solved in 60-digit `Decimal`
 (tolerance 1e-9).  That comparison holds for every single-capture row on the whole range after the
 repair, and fails for the `'2n'` rows (catastrophic cancellation, finding D12b) and for `'b'` rows
-at very small `λ·T` (finding D12c).  Also partial: the closed forms are *a* solution of the ODE
-systems with the stated initial values; uniqueness (classical for linear systems) is not proved.
+at very small `λ·T` (finding D12c).
 -/
 namespace PtVerif.C14
 open PtModel.Activation
@@ -78,6 +79,28 @@ theorem twoN_solves (R cap l2 pa p2 t : ℝ) (h12 : pa - l2 ≠ 0) (h13 : p2 - l
    nX_zero R l2, nN2_zero R l2 pa, nN3_zero R cap l2 pa p2 h12 h13 h23⟩
 
 example : (2:ℝ) - 1 ≠ 0 ∧ (3:ℝ) - 1 ≠ 0 ∧ (3:ℝ) - 2 ≠ 0 := by norm_num
+
+/-! ### … and they are *the* solutions -/
+
+/-- single capture: whatever differentiable `(N_t, N_p)` satisfies the system and the initial
+    values is the closed form, at every time -/
+theorem act_solution_unique (N0 a c : ℝ) (Nt Np : ℝ → ℝ)
+    (hNt : ∀ t, HasDerivAt Nt (-a * Nt t) t) (hNp : ∀ t, HasDerivAt Np (a * Nt t - c * Np t) t)
+    (h0t : Nt 0 = N0) (h0p : Np 0 = 0) :
+    (∀ t, Nt t = actNt N0 a t) ∧ (∀ t, Np t = actNp N0 a c t) :=
+  PtModel.Activation.act_solution_unique N0 a c Nt Np hNt hNp h0t h0p
+
+theorem b_solution_unique (R lp lam : ℝ) (hlp : lp ≠ 0) (hlam : lam ≠ 0) (hne : lp - lam ≠ 0)
+    (P D : ℝ → ℝ) (hP : ∀ t, HasDerivAt P (R - lp * P t) t) (hD : ∀ t, HasDerivAt D (lp * P t - lam * D t) t)
+    (h0P : P 0 = 0) (h0D : D 0 = 0) :
+    (∀ t, P t = bP R lp t) ∧ (∀ t, D t = bD R lp lam t) :=
+  PtModel.Activation.b_solution_unique R lp lam hlp hlam hne P D hP hD h0P h0D
+
+theorem twoN_solution_unique (R cap l2 pa p2 : ℝ) (h12 : pa - l2 ≠ 0) (h13 : p2 - l2 ≠ 0) (h23 : p2 - pa ≠ 0)
+    (x N2 N3 : ℝ → ℝ) (hx : ∀ t, HasDerivAt x (-l2 * x t) t) (hN2 : ∀ t, HasDerivAt N2 (x t - pa * N2 t) t)
+    (hN3 : ∀ t, HasDerivAt N3 (cap * N2 t - p2 * N3 t) t) (h0x : x 0 = R) (h02 : N2 0 = 0) (h03 : N3 0 = 0) :
+    (∀ t, x t = nX R l2 t) ∧ (∀ t, N2 t = nN2 R l2 pa t) ∧ (∀ t, N3 t = nN3 R cap l2 pa p2 t) :=
+  PtModel.Activation.twoN_solution_unique R cap l2 pa p2 h12 h13 h23 x N2 N3 hx hN2 hN3 h0x h02 h03
 
 /-! ## `activity()` returns `λ·N(T)` of those solutions; never negative; never fails -/
 
